@@ -17,9 +17,9 @@ var mountPool = []string{"a", "ab", "a/b", "a/b/ab", "b"}
 
 type mountWorld struct {
 	m      *mount.FS
-	points []string         // in insertion order
-	parts  []hackpadfs.FS   // parts[0] = root, parts[i+1] = FS mounted at points[i]
-	flat   hackpadfs.FS     // the same tree in one plain in-memory FS
+	points []string       // in insertion order
+	parts  []hackpadfs.FS // parts[0] = root, parts[i+1] = FS mounted at points[i]
+	flat   hackpadfs.FS   // the same tree in one plain in-memory FS
 }
 
 func isAncestorOrEqual(a, p string) bool { return a == p || a == "." || strings.HasPrefix(p, a+"/") }
